@@ -507,8 +507,14 @@ pub fn run(ctx: &mut Ctx) {
         Ok(())
     };
     ctx.check("quorum-exhaustive", tier.pick(700, 8000), case_strategy(6, false), &body);
+    if crate::util::violated(ctx) {
+        return;
+    }
     ctx.check("quorum-tapes", tier.pick(2000, 60000), case_strategy(12, true), &body);
 
+    if crate::util::violated(ctx) {
+        return;
+    }
     let (jc, (meta_send, resp_send, ack, joined)) = &join;
     ctx.check("join-responses-exhaustive", tier.pick(200, 2000), jcase_strategy(), |c: &JCase, obs: &mut Obs| {
         obs.class("join_responses");
